@@ -43,7 +43,7 @@ func (d *FeeGrid) Name() string {
 	return fmt.Sprintf("container-fee-n%d", d.N)
 }
 func (d *FeeGrid) Rule() string {
-	return "product of ContainerFee {0,1,7} x ContainerAliasFee {0,3} x naming {none,new name,name reused after delete,domain registered in advance} x owner balance {T-1,T,T+1,2T-1,2T} x history {put; put,put; put,setConfig(fee'),put; put,setConfig(0),put} plus rows where the owner is an Alphabet node; non-trivial = T > 0; distinct by case"
+	return "product of ContainerFee {0,1,7} x ContainerAliasFee {0,3} x naming {none,new name,name reused after delete,domain registered in advance} x owner balance {T-1,T,T+1,2T-1,2T} x history {put; put,put; put,setConfig(fee'),put; put,setConfig(0),put; put, the same container put again} plus rows where the owner is an Alphabet node; non-trivial = T > 0; distinct by case"
 }
 
 func (d *FeeGrid) Build() *World {
@@ -79,7 +79,7 @@ func (d *FeeGrid) Cases(tier string) []GridCase {
 		for _, al := range []int64{0, 3} {
 			for _, named := range []string{"", "new", "reuse", "prereg"} {
 				for _, bo := range [][2]int64{{1, -1}, {1, 0}, {1, 1}, {2, -1}, {2, 0}} {
-					for _, hist := range []string{"put", "put-put", "put-setfee-put", "put-setzero-put"} {
+					for _, hist := range []string{"put", "put-put", "put-setfee-put", "put-setzero-put", "put-sameput"} {
 						add(feeCase{Fee: fee, Alias: al, Named: named, Mul: bo[0], Off: bo[1], Hist: hist})
 					}
 				}
@@ -205,6 +205,13 @@ func (d *FeeGrid) Eval(x *Exec, root *Node, gc GridCase) GridResult {
 		if !mustPut("first put", put(b1, "")) {
 			return GridResult{Outcome: "refused", Nontrivial: true, V: vs}
 		}
+	case "put-sameput":
+		// the measured put repeats the very container that is already stored: it is a registration like any other
+		b1, _ := mkContainerBlob(owner, nonce)
+		mintTo(big.NewInt(c.Fee * N))
+		if !mustPut("first put", put(b1, "")) {
+			return GridResult{Outcome: "refused", Nontrivial: true, V: vs}
+		}
 	case "put-setfee-put":
 		b1, _ := mkContainerBlob(owner, nonce)
 		nonce++
@@ -257,6 +264,7 @@ func (d *FeeGrid) Eval(x *Exec, root *Node, gc GridCase) GridResult {
 	obs, after := x.Do(cur, Call{Script: measured, Signers: signers, Label: "measured put"})
 	cur = after
 	stored := w.Read(after.L, after.H, after.TS, cnt, "get", cid).Halt
+	storedBefore := w.Read(before.L, before.H, before.TS, cnt, "get", cid).Halt
 	wantOK := target >= T
 	outcome := "charged"
 	if !wantOK {
@@ -268,7 +276,7 @@ func (d *FeeGrid) Eval(x *Exec, root *Node, gc GridCase) GridResult {
 		return GridResult{Outcome: outcome, Nontrivial: T > 0, V: vs}
 	}
 	if !obs.Halt {
-		if df := DiffDumps(w.FullDump(before.L), w.FullDump(after.L)); len(df) > 0 || stored {
+		if df := DiffDumps(w.FullDump(before.L), w.FullDump(after.L)); len(df) > 0 || stored != storedBefore {
 			vs = append(vs, Viol("refused-but-changed", fmt.Sprintf("a refused put changed state: %v", df), where))
 		}
 		return GridResult{Outcome: outcome, Nontrivial: T > 0, V: vs}
